@@ -100,7 +100,8 @@ class StoreHistory:
 
     # -- sessions -------------------------------------------------------------
     def open_session(self, kind: str):
-        assert self.store is None
+        if self.store is not None:
+            raise RuntimeError('harness: session already open')
         if kind == 'create_mem':
             self.store = TrajectoryStore.create(cache_size_mb=self.cache_mb())
         elif kind == 'create_file':
